@@ -180,6 +180,7 @@ type Reaction struct {
 	FwdBytes int
 	End      bool
 	Skipped  bool // tunnel had already ended: nothing was observed to happen
+	Stuck    bool // the gateway did not take the packet up within the time limit
 	Events   []gw.Event
 }
 
@@ -206,7 +207,19 @@ func (t *TunConn) Step(pkt []byte) (Reaction, error) {
 		return e.Cid == t.Cid && (e.Pt == "proc.step" || e.Pt == "proc.exit")
 	})
 	if idx < 0 {
-		return r, fmt.Errorf("gateway did not finish handling the packet (no proc.step/proc.exit for %s); alive=%v", t.Cid, p.Alive())
+		if !p.Alive() {
+			return r, fmt.Errorf("gateway did not finish handling the packet (no proc.step/proc.exit for %s); alive=false", t.Cid)
+		}
+		// the gateway is alive and sits on a packet the client has sent completely, without handling it: that is what it
+		// did with this packet (nothing) - an observation; the client gives up on the connection
+		r.Stuck, r.End, t.Broken = true, true, true
+		for _, e := range p.Since(mark) {
+			if e.Cid == t.Cid {
+				r.Events = append(r.Events, e)
+			}
+		}
+		t.Close()
+		return r, nil
 	}
 	evs := p.Since(mark)
 	evs = evs[:idx-mark+1]
